@@ -4,6 +4,7 @@ mod engine;
 mod lean;
 mod report;
 mod rng;
+mod sexp;
 mod props;
 
 use report::Report;
